@@ -1,4 +1,5 @@
 import HappyProofs.C05.ParExec
+import HappyModel.C05.Stateful
 /-!
 The sequential run of an entity-local handler, cut at the end time, is a min-first execution of the
 abstract system, complete up to the end time.
@@ -36,37 +37,42 @@ theorem sorted_split (T : Nat) : ∀ l : List PEv, l.Pairwise (fun a b => a.time
         · omega
         · have := hp.1 e he; omega
 
-/-- the deliveries of the sequential run up to `T`, without creation indices -/
-def seqTrace (hE : EHandler τ) (T fuel start : Nat) (st : Nat → τ) (evs : List Ev) : List PEv :=
-  ((runSeq (liftP hE) T fuel (Part.init 0 start st evs)).log.reverse.map proj).filter (fun e => e.time ≤ T)
+theorem LogInv.initCtr (pid start : Nat) (st : Nat → τ) (evs : List Ev) (n0 : Nat) :
+    LogInv (Part.initCtr pid start st evs n0) :=
+  ⟨by simp [Part.initCtr, Part.init], by simp [Part.initCtr, Part.init]⟩
 
-theorem seq_exec (hE : EHandler τ) (T fuel start : Nat) (st : Nat → τ) (evs : List Ev)
+/-- the deliveries of the sequential run up to `T`, without creation indices; `n0` = the creation
+    counter the run starts with (`0`: `Part.init`; the code: the number of pre-run events) -/
+def seqTrace (hE : EHandler τ) (T fuel start : Nat) (st : Nat → τ) (evs : List Ev) (n0 : Nat) : List PEv :=
+  ((runSeq (liftP hE) T fuel (Part.initCtr 0 start st evs n0)).log.reverse.map proj).filter (fun e => e.time ≤ T)
+
+theorem seq_exec (hE : EHandler τ) (T fuel start : Nat) (st : Nat → τ) (evs : List Ev) (n0 : Nat)
     (hstart : ∀ e ∈ evs, start ≤ e.time)
-    (hhalt : Halted (liftP hE) seqRoute false T (runSeq (liftP hE) T fuel (Part.init 0 start st evs))) :
-    Valid hE ⟨st, evs.map proj⟩ (seqTrace hE T fuel start st evs)
-    ∧ MinFirst hE ⟨st, evs.map proj⟩ (seqTrace hE T fuel start st evs)
-    ∧ (∀ e ∈ seqTrace hE T fuel start st evs, e.time ≤ T)
-    ∧ (∀ e ∈ (arun hE ⟨st, evs.map proj⟩ (seqTrace hE T fuel start st evs)).pend, T < e.time) := by
-  have w0 : WInv seqRoute (fun _ => True) start (Part.init 0 start st evs) :=
-    ⟨by simpa [Part.init] using hstart, by simpa [Part.init] using hstart, fun _ _ => trivial,
-     rfl, by simp [Part.init]⟩
-  have sim0 : PSim (fun _ => True) (⟨st, evs.map proj⟩ : AS τ) (Part.init 0 start st evs) [] :=
-    ⟨fun _ _ => rfl, by simp [Part.init]⟩
-  have hb : (runSeq (liftP hE) T fuel (Part.init 0 start st evs)).bad = false := seq_bad_false fuel rfl
+    (hhalt : Halted (liftP hE) seqRoute false T (runSeq (liftP hE) T fuel (Part.initCtr 0 start st evs n0))) :
+    Valid hE ⟨st, evs.map proj⟩ (seqTrace hE T fuel start st evs n0)
+    ∧ MinFirst hE ⟨st, evs.map proj⟩ (seqTrace hE T fuel start st evs n0)
+    ∧ (∀ e ∈ seqTrace hE T fuel start st evs n0, e.time ≤ T)
+    ∧ (∀ e ∈ (arun hE ⟨st, evs.map proj⟩ (seqTrace hE T fuel start st evs n0)).pend, T < e.time) := by
+  have w0 : WInv seqRoute (fun _ => True) start (Part.initCtr 0 start st evs n0) :=
+    ⟨by simpa [Part.initCtr, Part.init] using hstart, by simpa [Part.initCtr, Part.init] using hstart, fun _ _ => trivial,
+     rfl, by simp [Part.initCtr, Part.init]⟩
+  have sim0 : PSim (fun _ => True) (⟨st, evs.map proj⟩ : AS τ) (Part.initCtr 0 start st evs n0) [] :=
+    ⟨fun _ _ => rfl, by simp [Part.initCtr, Part.init]⟩
+  have hb : (runSeq (liftP hE) T fuel (Part.initCtr 0 start st evs n0)).bad = false := seq_bad_false fuel rfl
   obtain ⟨seg, hv, sim, hlog, _, hmin⟩ := runWin_sim hE seqRoute (fun _ => True) (fun _ _ => trivial)
-    start false T fuel (Part.init 0 start st evs) ⟨st, evs.map proj⟩ [] w0 sim0 hb
+    start false T fuel (Part.initCtr 0 start st evs n0) ⟨st, evs.map proj⟩ [] w0 sim0 hb
   have hmin' := hmin rfl (fun t => by simp [seqRoute])
-  have wfin : WInv seqRoute (fun _ => True) start (runSeq (liftP hE) T fuel (Part.init 0 start st evs)) :=
+  have wfin : WInv seqRoute (fun _ => True) start (runSeq (liftP hE) T fuel (Part.initCtr 0 start st evs n0)) :=
     WInv.run (fun _ _ => trivial) fuel w0
-  have hseg : (runSeq (liftP hE) T fuel (Part.init 0 start st evs)).log.reverse.map proj = seg := by
-    have : (runSeq (liftP hE) T fuel (Part.init 0 start st evs)).log.reverse.map proj
-        = (Part.init 0 start st evs).log.reverse.map proj ++ seg := hlog
-    simpa [Part.init] using this
+  have hseg : (runSeq (liftP hE) T fuel (Part.initCtr 0 start st evs n0)).log.reverse.map proj = seg := by
+    have : (runSeq (liftP hE) T fuel (Part.initCtr 0 start st evs n0)).log.reverse.map proj
+        = (Part.initCtr 0 start st evs n0).log.reverse.map proj ++ seg := hlog
+    simpa [Part.initCtr, Part.init] using this
   have hsorted : seg.Pairwise (fun a b => a.time ≤ b.time) := by
     rw [← hseg, List.pairwise_map, List.pairwise_reverse]
-    exact ((LogInv.init 0 start st evs).run fuel).sorted.imp (fun h => by simpa [proj] using h)
+    exact ((LogInv.initCtr 0 start st evs n0).run fuel).sorted.imp (fun h => by simpa [proj] using h)
   obtain ⟨b, hsplit, hgt⟩ := sorted_split T seg hsorted
-  have htr : seqTrace hE T fuel start st evs = seg.filter (fun e => e.time ≤ T) := by
+  have htr : seqTrace hE T fuel start st evs n0 = seg.filter (fun e => e.time ≤ T) := by
     unfold seqTrace; rw [hseg]
   rw [htr]
   have hv' : Valid hE ⟨st, evs.map proj⟩ (seg.filter (fun e => e.time ≤ T) ++ b) := hsplit ▸ hv
@@ -79,12 +85,12 @@ theorem seq_exec (hE : EHandler τ) (T fuel start : Nat) (st : Nat → τ) (evs 
     · exact hgt e h
     · rw [← arun_append, ← hsplit] at h
       have h1 := sim.pend.mem_iff.mp h
-      have hob : (runSeq (liftP hE) T fuel (Part.init 0 start st evs)).outbox = [] := by
+      have hob : (runSeq (liftP hE) T fuel (Part.initCtr 0 start st evs n0)).outbox = [] := by
         rw [List.eq_nil_iff_forall_not_mem]
         intro y hy
         have := (wfin.out y hy).2.2
         simp [seqRoute] at this
-      have hob' : (runWin (liftP hE) seqRoute false T fuel (Part.init 0 start st evs)).outbox = [] := hob
+      have hob' : (runWin (liftP hE) seqRoute false T fuel (Part.initCtr 0 start st evs n0)).outbox = [] := hob
       simp only [hob', List.map_nil, List.append_nil, List.mem_map] at h1
       obtain ⟨e0, he0, rfl⟩ := h1
       exact halted_loose_heap_gt hhalt hb wfin.geClock e0 he0
